@@ -68,6 +68,10 @@ const (
 	// is in range because of leading zeros ("000000001S", "00000000001"): not
 	// in the grammar, accepted by the server.
 	c12GenOverlongZeros = true
+
+	// Streaming procedures (ClientStream, ServerStream, half-duplex BidiStream)
+	// as steps of c12-matrix, over every instance kind.
+	c12GenStreams = true
 )
 
 // ---------------------------------------------------------------------------
@@ -307,6 +311,11 @@ type c12Actual struct {
 	ExplicitIdentity bool   `json:"identity_encoding_header,omitempty"`
 	Trailers         bool   `json:"request_trailers,omitempty"`
 	DelayMs          uint32 `json:"response_delay_ms,omitempty"`
+	// streaming procedures: "" (unary), "client", "server", "bidi" (half-duplex)
+	Stream    string `json:"stream,omitempty"`
+	Msgs      int    `json:"request_messages,omitempty"`
+	Chunked   bool   `json:"body_of_unknown_length,omitempty"`
+	PlainLast bool   `json:"last_message_not_compressed,omitempty"`
 }
 
 // c12Expect is what the x-expect-* headers say.
@@ -341,14 +350,35 @@ func c12DrawActual(tape *simrt.Tape, s c12Server, allowGet bool) c12Actual {
 		a.Ver = vers[1]
 	}
 	a.Protocol = 1 + tape.Choose(3, "protocol")
+	switch tape.Choose(7, "rpc-kind") { // 0..3 unary
+	case 4:
+		a.Stream = "client"
+	case 5:
+		a.Stream = "server"
+	case 6:
+		a.Stream = "bidi"
+	}
+	if !c12GenStreams {
+		a.Stream = ""
+	}
 	get := tape.Bool(1, 3, "get")
-	if get && allowGet && a.Protocol == 1 {
+	if get && allowGet && a.Protocol == 1 && a.Stream == "" {
 		a.Method = http.MethodGet
+	}
+	second := tape.Bool(1, 2, "second-request-message")
+	chunked := tape.Bool(1, 2, "unknown-length-body")
+	if a.Stream != "" {
+		a.Msgs = 1
+		if second && a.Stream != "server" {
+			a.Msgs = 2
+		}
+		a.Chunked = chunked
 	}
 	a.Codec = 1 + tape.Choose(2, "codec")
 	a.Compression = 1 + tape.Choose(6, "compression")
 	a.BareContentType = tape.Bool(1, 3, "bare-content-type") && a.Codec == 1 && a.Protocol != 1
 	a.ExplicitIdentity = tape.Bool(1, 4, "explicit-identity") && a.Compression == 1
+	a.PlainLast = tape.Bool(1, 4, "plain-last-message") && a.Compression != 1 && a.Stream != ""
 	return a
 }
 
@@ -410,21 +440,73 @@ func c12Build(ctx context.Context, s c12Server, addr string, r *c12Request) (*ht
 		msg = &conformancev1.IdempotentUnaryRequest{ResponseDefinition: def}
 		path = "/connectrpc.conformance.v1.ConformanceService/IdempotentUnary"
 	}
-	var data []byte
-	var err error
+	var msgs []proto.Message
+	switch a.Stream {
+	case "client":
+		path = "/connectrpc.conformance.v1.ConformanceService/ClientStream"
+		for i := 0; i < a.Msgs; i++ {
+			m := &conformancev1.ClientStreamRequest{RequestData: []byte(fmt.Sprintf("req-%d", i))}
+			if i == 0 {
+				m.ResponseDefinition = def
+			}
+			msgs = append(msgs, m)
+		}
+	case "server":
+		path = "/connectrpc.conformance.v1.ConformanceService/ServerStream"
+		msgs = append(msgs, &conformancev1.ServerStreamRequest{
+			ResponseDefinition: &conformancev1.StreamResponseDefinition{ResponseData: [][]byte{[]byte(r.Data)}, ResponseDelayMs: a.DelayMs},
+			RequestData:        []byte("req-0"),
+		})
+	case "bidi":
+		path = "/connectrpc.conformance.v1.ConformanceService/BidiStream"
+		for i := 0; i < a.Msgs; i++ {
+			m := &conformancev1.BidiStreamRequest{RequestData: []byte(fmt.Sprintf("req-%d", i))}
+			if i == 0 {
+				m.ResponseDefinition = &conformancev1.StreamResponseDefinition{ResponseData: [][]byte{[]byte(r.Data)}, ResponseDelayMs: a.DelayMs}
+			}
+			msgs = append(msgs, m) // full_duplex stays false: all requests, then the responses
+		}
+	default:
+		msgs = []proto.Message{msg}
+	}
 	codecName := "proto"
 	if a.Codec == 2 {
 		codecName = "json"
-		data, err = protojson.Marshal(msg)
-	} else {
-		data, err = proto.Marshal(msg)
 	}
-	if err != nil {
-		return nil, err
+	var encoded [][]byte // per message: codec, then compression
+	var flags []byte
+	for i, m := range msgs {
+		var one []byte
+		var err error
+		if a.Codec == 2 {
+			one, err = protojson.Marshal(m)
+		} else {
+			one, err = proto.Marshal(m)
+		}
+		if err != nil {
+			return nil, err
+		}
+		flag := byte(0)
+		if a.Compression != 1 && !(a.PlainLast && i == len(msgs)-1) {
+			flag = 1
+			one, err = c12Compress(a.Compression, one)
+			if err != nil {
+				return nil, err
+			}
+		}
+		encoded = append(encoded, one)
+		flags = append(flags, flag)
 	}
-	data, err = c12Compress(a.Compression, data)
-	if err != nil {
-		return nil, err
+	data := encoded[0]
+	envelopes := func() []byte {
+		var out []byte
+		for i, one := range encoded {
+			env := make([]byte, 5, 5+len(one))
+			env[0] = flags[i]
+			binary.BigEndian.PutUint32(env[1:], uint32(len(one)))
+			out = append(out, append(env, one...)...)
+		}
+		return out
 	}
 	scheme := "http"
 	if s.TLS {
@@ -446,6 +528,13 @@ func c12Build(ctx context.Context, s c12Server, addr string, r *c12Request) (*ht
 			q.Set("compression", encName)
 		}
 		target += "?" + q.Encode()
+	case a.Protocol == 1 && a.Stream != "":
+		hdr.Set("Content-Type", "application/connect+"+codecName)
+		hdr.Set("Connect-Protocol-Version", "1")
+		if sendEnc {
+			hdr.Set("Connect-Content-Encoding", encName)
+		}
+		body = envelopes()
 	case a.Protocol == 1:
 		hdr.Set("Content-Type", "application/"+codecName)
 		hdr.Set("Connect-Protocol-Version", "1")
@@ -468,17 +557,12 @@ func c12Build(ctx context.Context, s c12Server, addr string, r *c12Request) (*ht
 		if sendEnc {
 			hdr.Set("Grpc-Encoding", encName)
 		}
-		env := make([]byte, 5, 5+len(data))
-		if a.Compression != 1 {
-			env[0] = 1
-		}
-		binary.BigEndian.PutUint32(env[1:], uint32(len(data)))
-		body = append(env, data...)
+		body = envelopes()
 	}
 	var rd io.Reader
 	if a.Method != http.MethodGet {
 		rd = bytes.NewReader(body)
-		if a.Trailers {
+		if a.Trailers || a.Chunked {
 			rd = &c12OpaqueReader{r: rd} // unknown length: chunked on HTTP/1.1
 		}
 	}
@@ -522,13 +606,14 @@ type c12Reply struct {
 	RPCErr  string // non-empty: the RPC ended with an error
 	Payload *conformancev1.ConformancePayload
 	Proto   int // HTTP major version of the response
+	Msgs    int // response messages
 }
 
 func (r *c12Reply) String() string {
 	if r.Err != "" {
 		return "transport error: " + r.Err
 	}
-	return fmt.Sprintf("http %d rpc-error %q payload=%v", r.Status, r.RPCErr, r.Payload != nil)
+	return fmt.Sprintf("http %d rpc-error %q payload=%v messages=%d", r.Status, r.RPCErr, r.Payload != nil, r.Msgs)
 }
 
 func c12DecodeMessage(contentType string, data []byte) (*conformancev1.ConformancePayload, error) {
@@ -568,6 +653,54 @@ func c12Do(rt http.RoundTripper, req *http.Request, protocol int) *c12Reply {
 		rep.RPCErr = fmt.Sprintf("http status %d: %.200s", resp.StatusCode, data)
 		return rep
 	}
+	if strings.HasPrefix(ct, "application/connect+") {
+		// Connect streaming: enveloped messages, then an end-stream envelope (flag 2, JSON)
+		rest := data
+		ended := false
+		for len(rest) >= 5 {
+			flag := rest[0]
+			n := int(binary.BigEndian.Uint32(rest[1:5]))
+			if n > len(rest)-5 {
+				break
+			}
+			chunk := rest[5 : 5+n]
+			rest = rest[5+n:]
+			if flag&1 != 0 {
+				chunk, err = c12Decompress(resp.Header.Get("Connect-Content-Encoding"), chunk)
+				if err != nil {
+					rep.RPCErr = "undecompressable response envelope: " + err.Error()
+					return rep
+				}
+			}
+			if flag&2 != 0 {
+				ended = true
+				var end struct {
+					Error json.RawMessage `json:"error"`
+				}
+				if err := json.Unmarshal(chunk, &end); err != nil {
+					rep.RPCErr = "undecodable end-stream message: " + err.Error()
+				} else if len(end.Error) > 0 && string(end.Error) != "null" {
+					rep.RPCErr = fmt.Sprintf("end-stream error %.200s", end.Error)
+				}
+				continue
+			}
+			pl, err := c12DecodeMessage(ct, chunk)
+			if err != nil {
+				rep.RPCErr = "undecodable response message: " + err.Error()
+				return rep
+			}
+			if rep.Payload == nil {
+				rep.Payload = pl
+			}
+			rep.Msgs++
+		}
+		if len(rest) != 0 {
+			rep.RPCErr = "truncated envelope"
+		} else if !ended && rep.RPCErr == "" {
+			rep.RPCErr = "no end-stream message"
+		}
+		return rep
+	}
 	if protocol == 1 && !strings.HasPrefix(ct, "application/grpc") {
 		data, err = c12Decompress(resp.Header.Get("Content-Encoding"), data)
 		if err != nil {
@@ -580,6 +713,7 @@ func c12Do(rt http.RoundTripper, req *http.Request, protocol int) *c12Reply {
 			return rep
 		}
 		rep.Payload = pl
+		rep.Msgs = 1
 		return rep
 	}
 	// gRPC / gRPC-Web (also the shape of an error written for such a content type)
@@ -619,7 +753,10 @@ func c12Do(rt http.RoundTripper, req *http.Request, protocol int) *c12Reply {
 			rep.RPCErr = "undecodable response message: " + err.Error()
 			return rep
 		}
-		rep.Payload = pl
+		if rep.Payload == nil {
+			rep.Payload = pl // the first message carries the request info
+		}
+		rep.Msgs++
 	}
 	if status != "0" {
 		rep.RPCErr = "grpc-status " + strconv.Quote(status)
@@ -787,6 +924,27 @@ func c12Deviate(tape *simrt.Tape, aspect string, a c12Actual, e *c12Expect) {
 	}
 }
 
+// c12NoteShape counts the streaming shapes that were really sent.
+func c12NoteShape(e *c12Env, a c12Actual) {
+	if a.Stream == "" {
+		return
+	}
+	e.res.Probes["stream-"+a.Stream]++
+	if a.Ver == 1 {
+		e.res.Probes["stream-"+a.Stream+"-http1"]++
+	}
+	if a.Protocol == 1 {
+		e.res.Probes["connect-stream"]++
+		if a.Compression != 1 {
+			e.res.Probes["connect-stream-compressed"]++
+		}
+	}
+	if a.PlainLast {
+		e.res.Probes["stream-uncompressed-message-under-encoding-header"]++
+	}
+	e.coverKey(fmt.Sprintf("stream:%s:srv=%s:ver=%d:p%d", a.Stream, e.srv, a.Ver, a.Protocol))
+}
+
 func c12MatrixRun(t *testing.T, tape *simrt.Tape, o simwork.Opts) *simwork.Result {
 	sample := &c12MatrixSample{}
 	res := c12Frame(t, tape, func(e *c12Env) {
@@ -934,6 +1092,12 @@ func c12MatrixRun(t *testing.T, tape *simrt.Tape, o simwork.Opts) *simwork.Resul
 				if rep.Err == "" && rep.Proto != a.Ver {
 					e.violate("c12/harness", "response came over HTTP/%d, the client node meant to use HTTP/%d", rep.Proto, a.Ver)
 				}
+				if rep.Err == "" && (rep.RPCErr != "" || rep.Payload == nil || string(rep.Payload.GetData()) != "data" || rep.Msgs != 1) {
+					e.violate("c12/request-failed", "server %s: well-formed RPC (actual %+v) did not complete with its one response message: %s", e.srv, a, rep)
+				}
+			}
+			for _, r := range step.Requests {
+				c12NoteShape(e, r.Actual)
 			}
 			after, allAfter := e.printer.count(name)
 			delta := after - before
@@ -959,12 +1123,12 @@ func c12MatrixRun(t *testing.T, tape *simrt.Tape, o simwork.Opts) *simwork.Resul
 				e.res.Probes[fmt.Sprintf("deviations=%d:lines=%d", len(step.Devs), delta)]++
 				e.coverKey("dev:" + strings.Join(step.Devs, "+"))
 				for _, d := range step.Devs {
-					e.coverKey(fmt.Sprintf("cell:%s:srv=%s:ver=%d:%s:p%d", d, e.srv, a.Ver, a.Method, a.Protocol))
+					e.coverKey(fmt.Sprintf("cell:%s:srv=%s:ver=%d:%s%s:p%d", d, e.srv, a.Ver, a.Method, a.Stream, a.Protocol))
 				}
 			} else {
 				e.res.Probes[kind]++
 			}
-			e.coverKey(fmt.Sprintf("actual:v%d:%s:p%d:c%d:z%d", a.Ver, a.Method, a.Protocol, a.Codec, a.Compression))
+			e.coverKey(fmt.Sprintf("actual:v%d:%s%s:p%d:c%d:z%d", a.Ver, a.Method, a.Stream, a.Protocol, a.Codec, a.Compression))
 			sample.Steps = append(sample.Steps, step)
 		}
 		// at the end: names whose requests all conformed must still be silent
